@@ -96,13 +96,22 @@ def build(name, sources, flags=(), libs=(), cxx=None, include_repo=True, timeout
     return exe
 
 
+def _limit_memory():
+    import resource
+    lim = 6 * 1024 * 1024 * 1024
+    resource.setrlimit(resource.RLIMIT_AS, (lim, lim))
+
+
 def run(cmd, timeout=600, env=None, cwd=None, ok_codes=(0,), stdin=None):
     e = dict(os.environ)
     if env:
         e.update({k: str(v) for k, v in env.items()})
     try:
+        # drivers run under an address-space limit: a library that reads garbage sizes must fail fast (bad_alloc ->
+        # Abort event), not swallow the machine
+        limit = str(cmd[0]).startswith(os.path.join(CACHE, "bin"))
         r = subprocess.run(cmd, stdout=subprocess.PIPE, stderr=subprocess.STDOUT, text=True, timeout=timeout,
-                           env=e, cwd=cwd, input=stdin)
+                           env=e, cwd=cwd, input=stdin, preexec_fn=_limit_memory if limit else None)
     except subprocess.TimeoutExpired:
         raise MachineryError("timeout after %ss: %s" % (timeout, " ".join(map(str, cmd))[:300]))
     if ok_codes is not None and r.returncode not in ok_codes:
@@ -140,7 +149,8 @@ class TlcResult:
         self.prints = re.findall(r'^(<<"VT_[A-Z_]+".*>>)\s*$', out, re.M)
 
     def tail(self, n=40):
-        return "\n".join(self.out.splitlines()[-n:])
+        keep = [x for x in self.out.splitlines() if not x.startswith(("Parsing file", "Semantic processing", "Linting of"))]
+        return "\n".join(keep[-n:])
 
 
 _run_counter = [0]
@@ -158,7 +168,7 @@ def tlc(module, cfg=None, workers=4, timeout=900, env=None, simulate=None, depth
         if f.endswith(".tla") or f.endswith(".cfg"):
             shutil.copy(os.path.join(SPEC, f), scratch)
     cfg = cfg or module
-    jopts = ["-XX:+UseParallelGC", "-Xmx" + heap]
+    jopts = ["-XX:+UseParallelGC", "-Xmx" + heap, "-Xss256m"]
     if dfs:
         jopts.append("-Dtlc2.tool.queue.IStateQueue=StateDeque")
     cmd = ["java"] + jopts + ["-cp", TLA_CP, "tlc2.TLC", "-workers", str(workers), "-metadir",
@@ -270,13 +280,24 @@ class Check:
         e = {"TRACE": trace_path}
         if env:
             e.update(env)
-        res = tlc(module, cfg, workers=workers, timeout=timeout, env=e, tag=self.pid, coverage=bool(need_actions), **kw)
+        res = tlc(module, cfg, workers=workers, timeout=timeout, env=e, tag=self.pid, **kw)
         self.add_tlc(what or ("trace:" + os.path.basename(trace_path)), res)
-        n = sum(1 for _ in open(trace_path))
+        n = 0
+        names = {}
+        with open(trace_path) as f:
+            for line in f:
+                n += 1
+                m = re.match(r'\{"e":"(\w+)"', line)
+                if m:
+                    names[m.group(1)] = names.get(m.group(1), 0) + 1
         if res.rc == 0 and res.ok:
             self.cov["traces_validated_against_impl"] += 1
+            # every event was consumed by the trace-spec action of its name (the trace spec is a chain): the event
+            # counts are the action counts; an action that never fired means the property was not exercised
+            for k, v in names.items():
+                self.cov["action_coverage"][k] = self.cov["action_coverage"].get(k, 0) + v
             for a in need_actions:
-                if res.coverage.get(a, [0, 0])[0] == 0:
+                if a not in names and a[1:] not in names:
                     raise MachineryError("trace spec %s: action %s never taken (vacuous validation)" % (module, a))
             return True, n, res
         if res.rc == 124:
